@@ -302,8 +302,23 @@ impl<'a> StoreWorld<'a> {
         }
         self.lines.push(Line::model("tnamespaces 1", format!("namespaces {}", v.join(";"))));
         let mut hs: Vec<String> = Vec::new();
-        for h in store.content_hashes()? {
-            hs.push(hex(h?.as_bytes()));
+        if self.via_actor {
+            // what the garbage-collection protection task asks the store actor for
+            let got = self.with_handle(|h, rt| {
+                rt.block_on(async {
+                    let it = h.content_hashes().await?;
+                    let mut v = vec![];
+                    for x in it {
+                        v.push(hex(x?.as_bytes()));
+                    }
+                    anyhow::Ok(v)
+                })
+            })??;
+            hs = got;
+        } else {
+            for h in self.rs.store.content_hashes()? {
+                hs.push(hex(h?.as_bytes()));
+            }
         }
         hs.sort();
         let line = format!("hashes {} {}", hs.len(), hs.join(";"));
@@ -485,7 +500,8 @@ impl<'a> StoreWorld<'a> {
                 // time, which increases like the generated times do (no case mixes the two clocks)
                 let nsid = self.nsid(*n);
                 let pid = peer_id(*p);
-                let via = if self.via_actor && !self.open[*n] { self.via_doc(nsid, |h, rt| rt.block_on(h.register_useful_peer(nsid, pid)))? } else { None };
+                // (not in the C16 histories: they open documents at the store, which would mix the two clocks)
+                let via = if self.via_actor && self.focus != "C16" && !self.open[*n] { self.via_doc(nsid, |h, rt| rt.block_on(h.register_useful_peer(nsid, pid)))? } else { None };
                 let res = match via {
                     Some(r) => {
                         std::thread::sleep(std::time::Duration::from_micros(50));
